@@ -10,7 +10,10 @@ import (
 	"github.com/ipld/go-ipld-prime/node/basicnode"
 
 	"verif/mc/core"
+	"verif/mc/props/c08"
 	"verif/mc/ref"
+	"verif/mc/rs"
+	"verif/mc/typed"
 )
 
 type Case struct {
@@ -165,6 +168,13 @@ func Main(r *core.Run) {
 	r.Sample(Case{V: vals[len(vals)/3], Proto: "any", Routes: ref.Routes{0: 7, 1: 2}})
 	r.Sample(Case{V: vals[len(vals)/2], Proto: "kind", Reuse: true})
 	equality(r, quick)
+	// typed implementations within their schema's value space: every single route deviation on the
+	// reflection binding's type-level and representation-level builders (generated code: see C08)
+	every := 3
+	if !quick {
+		every = 1
+	}
+	c08.RunRoutes(r, []typed.Engine{typed.NewBindEngine()}, rs.Families(quick), every)
 }
 
 func Replay(r *core.Run, mode string, raw json.RawMessage) {
@@ -176,6 +186,15 @@ func Replay(r *core.Run, mode string, raw json.RawMessage) {
 		}
 		fs, _ := Check(c)
 		r.Report("build", c, fs)
+	case "routes":
+		var c c08.Case
+		json.Unmarshal(raw, &c)
+		for _, s := range rs.Families(false) {
+			if s.Name == c.Schema {
+				fs, _ := c08.CheckRoutes(typed.NewBindEngine(), s, c)
+				r.Report("routes", c, fs)
+			}
+		}
 	case "equal":
 		var c EqCase
 		if err := json.Unmarshal(raw, &c); err != nil {
